@@ -38,6 +38,13 @@ def c_op(o):
         return "LRead %s %s %s %s" % (coq_bool(o["unc"]), cz(o["o"]), c_list([c_rec(r) for r in (o.get("recs") or [])]), coq_N(o["end"]))
     if k == "state":
         return "LState %s %s %s" % (cz(o["newest"]), cz(o["oldest"]), cz(o["hw"]))
+    if k == "ropen":
+        return "LROpen %d %s %s %s" % (o["id"], coq_bool(o["unc"]), cz(o["o"]), coq_bool(o["ok"]))
+    if k == "rnext":
+        return "LRNext %d %s %s" % (o["id"], c_list([c_rec(r) for r in (o.get("recs") or [])]), coq_N(o["end"]))
+    if k == "cleanroll":
+        return "LCleanRoll %s %s" % (cz(o["ttl"]), c_list(["(%s, %s, %s)" % (
+            c_list([c_msg(m) for m in a["msgs"]]), coq_N(a["res"]), c_list([cz(x) for x in (a.get("offs") or [])])) for a in (o.get("during") or [])]))
     if k == "clean":
         return "LClean %s" % cz(o["ttl"])
     if k == "layout":
